@@ -11,9 +11,12 @@ LEVEL_TEXT = (
     "the sign loop multiplies columns by +-1, so Gram matrix, quadratic forms and eigen-equations are preserved, even columns end with "
     "sum >= 0 and odd columns with first sample >= 0 (as coded); the autocovariance eigenvalue formula acvs.r equals v^T K v for the "
     "symmetric Toeplitz sinc kernel, hence IS the eigenvalue for a unit eigenvector; Slepian's tridiagonal matrix T is centrosymmetric "
-    "with simple eigenvalues, so each of its eigenvectors is symmetric or antisymmetric; the certificate checker (exact rational "
+    "with simple eigenvalues, so each of its eigenvectors is symmetric or antisymmetric; T commutes with the sinc kernel K for every N "
+    "(given the sine addition theorem for the sequences d*sinc(2Wd) and cos(2 pi W) as a hypothesis), hence every exact eigenvector of T is an "
+    "eigenvector of K and the number dpss() returns for a unit one is its K-eigenvalue; the certificate checker (exact rational "
     "arithmetic, executed by vm_compute on the actual C output for small N) is sound: true => |V^T V - I| <= eps and "
-    "|T(c) v_j - theta_j v_j| <= eps entrywise for every c in the rational enclosure of cos(2 pi W), and, GIVEN the spectral "
+    "|T(c) v_j - theta_j v_j| <= eps entrywise for every c in the rational enclosure of cos(2 pi W) - also over any ordered field reached from Q "
+    "by an order-preserving homomorphism, i.e. for the real cos(2 pi W) -, and, GIVEN the spectral "
     "decomposition of T(c) as a hypothesis (cited mathematics), theta_j is within sqrt(N) eps / sqrt(1-eps) of an eigenvalue of T(c).  "
     "SEARCH ONLY (not theorems): everything about what the iterative C eigen-solver returns for N up to 4096 - orthonormal columns, "
     "ratios in (0,1] and non-increasing, ratio = energy fraction in the band (sinc quadratic form and an independent Gauss-Legendre "
@@ -24,9 +27,11 @@ TRUSTED = ["Coq 8.16.1 kernel + vm_compute (no native_compute)",
            "hand-written model coq/Model/Dpss.v of the Python half of mtm.dpss, tied by the correspondence runs only; np.sqrt, np.sinc and "
            "the FFT convolution inside _autocov are inputs / modelled by the lag sums they compute",
            "rational enclosure of cos(2 pi W) computed by the harness (exact Fraction Taylor bounds, 50-digit pi), not re-verified in Coq",
-           "the certificate is evaluated over Q; the real number cos(2 pi W) lies in the enclosure - the order embedding Q -> R is not formalised",
-           "cited mathematics, NOT proved: spectral theorem for real symmetric matrices (hypothesis of cert_eigenvalue); T commutes with the "
-           "sinc kernel (Slepian 1978); v^T K v = band-limited energy; Courant-Fischer (maximal concentration)",
+           "the certificate is evaluated over Q; the real number cos(2 pi W) lies in the image of the enclosure - the transfer to any ordered field B "
+           "along an order-preserving ring homomorphism Q -> B is PROVED (cert_sound_transfer); that R is such a field is standard and not constructed here",
+           "cited mathematics, NOT proved: spectral theorem for real symmetric matrices (hypothesis of cert_eigenvalue); sine addition theorem for "
+           "(np.sinc, cos) (hypothesis of slepian_commutes, monitored numerically); approximate eigenvector => near an exact one; "
+           "v^T K v = band-limited energy; Courant-Fischer (maximal concentration)",
            "scipy.linalg.eigh_tridiagonal, scipy.signal.windows.dpss, numpy.linalg.eigvalsh as independent oracles of the search",
            "Python harness (snapshot, rebuild of mydpss.c with gcc, generators, float->dyadic conversion)"]
 UNPROVED = ["the C solver (bisection + inverse iteration) returns orthogonal columns of squared norm N that are eigenvectors of T: search + certificate on small N only",
@@ -34,7 +39,7 @@ UNPROVED = ["the C solver (bisection + inverse iteration) returns orthogonal col
             "ratio = energy fraction inside |f| <= NW/N (an integral): search only (two independent oracles)",
             "even index <-> symmetric, odd index <-> antisymmetric: only 'symmetric or antisymmetric' is proved for exact eigenvectors of T; index parity by search",
             "'odd tapers start with a positive lobe': the code enforces first sample >= 0 (proved); that this is the sign of the first lobe is search only",
-            "spectral theorem and T K = K T: cited, hypotheses",
+            "spectral theorem: hypothesis; T K = K T is proved from the sine addition recurrence (hypothesis on the library sequences)",
             "FFT-based _autocov equals the lag sums: correspondence only"]
 ASSUMPTIONS = ["exact arithmetic in the theorems; rounding error of the binary64 code is not bounded by any theorem",
                "certificate: NW representable in binary32 (the C routine receives NW as a float), N <= 32 quick / <= 64 thorough",
@@ -89,8 +94,11 @@ def check_dpss(N, NW, k, dense=True):
     # ratios in (0,1], non-increasing
     if lam.min() <= 0 or lam.max() > 1 + 1e-12:
         bad.append(('ratios_range/dpss', 'concentration ratios outside (0,1]: min %.6g max %.17g (%s)' % (lam.min(), lam.max(), tag)))
+    # sporadic loss of accuracy of the C solver at large N and NW (finding F3): classified separately so that it does not hide anything else
+    big = (N >= 1024 and NW >= 6.5 and eo <= EPS_ORTH)
+    F3 = '/large-N-NW-solver-accuracy'
     if k > 1 and np.diff(lam).max() > 1e-12:
-        bad.append(('ratios_order/dpss', 'ratios increase by %.3g at index %d (%s)' % (np.diff(lam).max(), int(np.argmax(np.diff(lam))), tag)))
+        bad.append(('ratios_order/dpss' + (F3 if big and np.diff(lam).max() < 1e-8 else ''), 'ratios increase by %.3g at index %d (%s)' % (np.diff(lam).max(), int(np.argmax(np.diff(lam))), tag)))
     # ratio = fraction of the energy in the band: independent Gauss-Legendre integral of the periodogram
     for j in sorted(set([0, k // 2, k - 1])):
         fr = U.band_energy_fraction(v[:, j], W)
@@ -116,7 +124,7 @@ def check_dpss(N, NW, k, dense=True):
     if np.any(dv > tolv):
         j = int(np.argmax(dv / tolv))
         W32 = float(np.float32(NW)) / N
-        key = 'eigenvectors/dpss'
+        key = 'eigenvectors/dpss' + (F3 if big and dv.max() < 1e-3 else '')
         note = ''
         if W32 != W:
             _, u32, nrm32, gap32 = U.tridiag_top(N, W32, k)
@@ -143,7 +151,7 @@ def check_dpss(N, NW, k, dense=True):
         par = 1 if j % 2 == 0 else -1
         dev = float(np.abs(col - par * col[::-1]).max())
         if dev > 2 * tolv[j]:
-            bad.append(('symmetry/dpss/' + ('even' if par == 1 else 'odd'),
+            bad.append(('symmetry/dpss/' + ('even' if par == 1 else 'odd') + (F3 if big and dev < 1e-3 else ''),
                         'taper %d is not %s: max |v[n] %s v[N-1-n]| = %.3g (allowed %.3g) (%s)' % (j, 'symmetric' if par == 1 else 'antisymmetric', '-' if par == 1 else '+', dev, 2 * tolv[j], tag)))
             continue
         if par == 1:
@@ -183,6 +191,13 @@ def replay(rep):
         if r.get('key'):
             return not any(b[0] == r['key'] for b in bad)
         return not bad
+    if r.get('function') == 'dpss-guard':
+        from spectrum import dpss
+        try:
+            dpss(r['N'], r['NW'])
+        except AssertionError:
+            return True
+        return False
     if r.get('function') == 'multitap':
         return not check_c_contract(r['N'], float.fromhex(r['NW']), r['k'])
     return True
@@ -254,7 +269,7 @@ def run(ctx):
 
     # ---------------- correspondence 2: Python half on prescribed C output (stub) and on the real C output
     cases = []; meta = []
-    for it in range(ctx.q(90, 500)):
+    for it in range(ctx.q(160, 800)):
         N = int(rng.choice([4, 4, 5, 6, 7, 8, 9, 9, 10, 12, 16]))
         k = int(rng.integers(1, 5))
         raw = rng.integers(-16, 17, size=k * N) / 8.0
@@ -280,7 +295,7 @@ def run(ctx):
         flips = ''.join('-' if (R[j] @ tap[:, j]) < 0 else '+' for j in range(k))
         ctx.count('python_half/stub/' + mode); ctx.count('python_half/stub/flips/' + flips)
         ctx.case(('stub', N, k, R.tobytes(), ts.tobytes()), nontrivial=(k >= 2), sample={'function': 'dpss with prescribed C output', 'N': N, 'k': k, 'flips': flips})
-    for it in range(ctx.q(24, 120)):
+    for it in range(ctx.q(40, 200)):
         N = int(rng.integers(8, 13)); NW = float(rng.choice([1.0, 1.5, 2.0, 2.5, float(np.float32(1.7))])); k = int(rng.integers(1, min(int(2 * NW), 4) + 1))
         raw, ts = U.c_multitap(N, NW, k)
         tap, ev = dpss(N, NW, k)
@@ -292,7 +307,7 @@ def run(ctx):
         meta.append({'function': 'dpss (real C output)', 'N': N, 'NW': NW, 'k': k})
         ctx.count('python_half/real-C')
         ctx.case(('realC', N, NW, k), nontrivial=(k >= 2))
-    for i in ctx.coq_cases('c18_python_half', PRE, cases, descr='dpss() post-processing (scale, sign loop, autocovariance eigenvalues) vs Model.Dpss.dpss_post at Qc'):
+    for i in ctx.coq_cases('c18_python_half', PRE, cases, shard=16, descr='dpss() post-processing (scale, sign loop, autocovariance eigenvalues) vs Model.Dpss.dpss_post at Qc'):
         ctx.corr_disagreement(meta[i]['function'], i, meta[i])
 
     # ---------------- certificate: the actual C output checked in exact rational arithmetic inside Coq
@@ -303,7 +318,7 @@ def run(ctx):
         for NW in ([1.0, 2.5, 4.0] if ctx.tier == 'quick' else [1.0, 1.5, 2.5, 4.0, 6.5, 8.0]):
             if NW < N / 2.0:
                 cfgs.append((N, NW))
-    for _ in range(ctx.q(10, 40)):
+    for _ in range(ctx.q(12, 60)):
         N = int(rng.integers(8, nmax + 1)); NW = gen_nw(rng, N, str(rng.choice(['half', 'f32'])))
         cfgs.append((N, NW))
     for (N, NW) in cfgs:
@@ -332,7 +347,7 @@ def run(ctx):
             cases.append('negb (cert_case %s %s %s %s %s)' % (args, Vl, dyql(th2), vlib.tolq(EPS_ORTH), vlib.tolq(er)))
             meta.append({'function': 'dpss', 'N': N, 'NW': NW, 'k': k, 'kind': 'negative control (wrong theta)'})
             ctx.count('certificate/reject-expected', 2)
-    for i in ctx.coq_cases('c18_certificate', PRE, cases, shard=12, descr='Model.Dpss.cert_check (exact rationals, cos enclosure) on the C output of the snapshot'):
+    for i in ctx.coq_cases('c18_certificate', PRE, cases, shard=6, descr='Model.Dpss.cert_check (exact rationals, cos enclosure) on the C output of the snapshot'):
         m = meta[i]
         if m['kind'] == 'certificate':
             fb = [b for b in check_dpss(m['N'], m['NW'], m['k']) if b[0].startswith(('orthonormal', 'eigenvectors'))]
@@ -347,9 +362,9 @@ def run(ctx):
     nhi = ctx.q(512, 4096)
     todo = []
     for N in range(8, 41):
-        for _ in range(ctx.q(2, 6)):
+        for _ in range(ctx.q(8, 20)):
             todo.append((N, str(rng.choice(['half', 'half', 'f32', 'free'])), str(rng.choice(['default', 'one', 'max', 'max', 'rand']))))
-    for _ in range(ctx.q(260, 2200)):
+    for _ in range(ctx.q(1000, 9000)):
         lo = 41
         N = int(np.exp(rng.uniform(np.log(lo), np.log(nhi + 1))))
         N = min(max(N, lo), nhi)
@@ -357,7 +372,7 @@ def run(ctx):
             N ^= 1                                     # both parities
             N = min(max(N, lo), nhi)
         todo.append((N, str(rng.choice(['half', 'half', 'half', 'f32', 'free'])), str(rng.choice(['default', 'one', 'max', 'max', 'rand']))))
-    fixed = [(64, 2.5, 4), (2048, 2.5, 4), (512, 8.0, 16), (511, 7.5, 15), (1024, 4.0, 8), (2769, 8.0, 16), (2401, 8.0, 16), (4096, 8.0, 16), (4093, 7.5, 15),
+    fixed = [(64, 2.5, 4), (2048, 2.5, 4), (512, 8.0, 16), (511, 7.5, 15), (1024, 4.0, 8), (2769, 8.0, 16), (2401, 8.0, 16), (2580, 7.0, None), (4035, 8.0, 16), (4096, 8.0, 16), (4093, 7.5, 15),
              (8, 2.3, 4), (16, 3.7, 7), (9, 1.1, 2)]
     seen = set()
     for item in fixed + todo:
@@ -380,9 +395,24 @@ def run(ctx):
             bad = [('raises/dpss', 'dpss(%d, %r, %r) raised %r' % (N, NW, k, e))]
         for key, what in bad:
             ctx.violation(key, what, rep_of(N, NW, k, key))
+        # hypothesis of slepian_commutes on the two library sequences (np.sinc, np.cos), monitored numerically
+        Wd = float(NW) / N; dd = np.arange(min(N, 64) + 2)
+        g = dd * np.sinc(2 * Wd * dd)
+        if np.abs(g[2:] + g[:-2] - 2 * np.cos(2 * np.pi * Wd) * g[1:-1]).max() > 1e-9 * max(1.0, np.abs(g).max()):
+            ctx.broken.append({'theorem': 'hypothesis cheb of slepian_commutes (np.sinc / np.cos inconsistent)', 'where': 'N=%d NW=%r' % (N, NW), 'log': ''})
+        ctx.count('oracle/sine-addition-recurrence-checked')
         if N <= 256 or rng.integers(0, 8) == 0:
             try:
                 for key, what in check_c_contract(N, NW, kd):
                     ctx.violation(key, what, {'function': 'multitap', 'N': N, 'NW': float(NW).hex(), 'k': kd})
             except Exception as e:
                 ctx.violation('raises/multitap', 'multitap(%d, %r, %d) raised %r' % (N, NW, kd, e), {'function': 'multitap', 'N': N, 'NW': float(NW).hex(), 'k': kd})
+
+    # ---------------- the guard of dpss: NW >= N/2 is refused
+    for N, NW in [(8, 4.0), (8, 4.5), (9, 4.5), (16, 8.0), (64, 40.0)]:
+        ctx.case(('guard', N, NW), nontrivial=False); ctx.count('guard/NW-ge-N/2')
+        try:
+            dpss(N, NW)
+            ctx.violation('guard/dpss/NW-ge-half-N', 'dpss(%d, %r) returned although NW >= N/2' % (N, NW), {'function': 'dpss-guard', 'N': N, 'NW': NW})
+        except AssertionError:
+            pass
